@@ -68,6 +68,10 @@ def run(ctx):
     ctx.tlc("socket", "HomeRelay", cfg="HomeRelay_Atomic.cfg", mode="mc", constants=mc,
             require_actions=["SetHome", "ClearHome", "SetStatusAtomic"])
     ctx.tlc("socket", "HomeRelay", cfg="HomeRelay_AsWritten.cfg", mode="mc", constants=mc, expect_violation="HomeIsChosen")
+    # growth: RelayActor + ActiveRelayActors with their SetHomeRelay messages and connection state machines around an
+    # atomic watch: the advertised status of the chosen relay is fresh once the messages are delivered (spec only)
+    ctx.tlc("socket", "HomeRelaySystem", mode="mc", constants=dict(MaxChanges=ctx.pick(3, 4), MaxSteps=ctx.pick(4, 6)),
+            require_actions=["NetworkChange", "Recv", "Step"])
     gens = ctx.pick([dict(States=STATES3, MaxChanges=2, MaxStatus=1)],
                     [dict(States=STATES3, MaxChanges=3, MaxStatus=1),
                      dict(States='{"Connected", "Disconnected"}', MaxChanges=2, MaxStatus=2)])
